@@ -10,6 +10,39 @@ from vt.oracles import prem
 PROPERTY = "C15"
 TITLE = "Earth density and slant depth"
 TECHNIQUE = ('runtime monitoring: density and slant_depth executions decided by independently typed PREM/CMC tables and an adaptive quadrature of the chord integral with a per-case discretisation bound; metamorphic relations (azimuth, direction length, step, dip)')
+NEEDS_ICONTRACT = True
+_STATE = {"evals": 0}
+
+
+class PostBroken(AssertionError):
+    pass
+
+
+def column_ok(result):
+    """Post-condition on the real slant_depth: a finite, non-negative column density."""
+    _STATE["evals"] += 1
+    r = np.asarray(result, float)
+    return bool(np.all(np.isfinite(r)) and np.all(r >= 0))
+
+
+def density_ok(r, result):
+    _STATE["evals"] += 1
+    d = np.asarray(result, float)
+    return bool(d.shape == np.shape(r) and np.all(np.isfinite(d)) and np.all(d >= 0) and np.all(d <= 14.0))
+
+
+def setup():
+    import icontract
+    import pyrex.earth_model as em
+    if not getattr(em.PREM.slant_depth, "_vt_wrapped", False):
+        w = icontract.ensure(column_ok, error=PostBroken)(em.PREM.slant_depth)
+        w._vt_wrapped = True
+        em.PREM.slant_depth = w
+        w2 = icontract.ensure(density_ok, error=PostBroken)(em.PREM.density)
+        w2._vt_wrapped = True
+        em.PREM.density = w2
+
+
 ANCHORS = ["pyrex.earth_model:PREM.density", "pyrex.earth_model:PREM.slant_depth"]
 RULE = ("one case = one chord (model PREM or CoreMantleCrust, endpoint depth 0..3 km or above the surface, any x,y "
         "up to 1e6 m, direction class random/near-tangential/vertical-down/vertical-up/skimming, non-unit direction "
@@ -48,6 +81,7 @@ def gen_cases(tier, seed):
         cases.append({"cls": cls, "model": model, "endpoint": [float(xy[0]), float(xy[1]), float(z)], "ct": float(ct), "phi": float(ph),
                       "scale": float(10 ** rng.uniform(-2, 2)), "step": float(rng.choice([2000, 500, 125, 31])),
                       "dip_delta_deg": float(rng.uniform(0.5, 20))})
+    cases.append({"cls": "repo-suite", "files": ["tests/test_earth_model.py", "tests/test_generation.py"]})      # the repository's own tests under the contract
     return cases
 
 
@@ -66,6 +100,27 @@ def _dir(ct, ph):
 
 
 def run_case(case):
+    if case["cls"] == "repo-suite":
+        from vt import suite
+        v_ = V()
+        rep = suite.run("c15", case["files"])
+        evals = sum(sum(x for x in d.values() if isinstance(x, int)) for d in rep.get("contract_evaluations", {}).values())
+        v_.events += evals
+        for f_ in rep.get("contract_failures", []):
+            v_.check(False, "contract holds while the repository's own tests run", test=f_["test"], message=f_["message"])
+        sample_ = {"workload": "repository test files under the contract", "files": rep.get("files"), "tests_collected": rep.get("collected"), "contract_evaluations": evals, "pytest": rep.get("tail")}
+        if rep.get("returncode") != 0 and not rep.get("contract_failures"):
+            return v_.result(decided=False, nontrivial=False, sample=sample_, skip="repository tests did not pass under the plugin")
+        return v_.result(decided=True, nontrivial=evals >= 50, sample=sample_)
+    try:
+        return _run_case(case)
+    except PostBroken as e:
+        v_ = V()
+        v_.check(False, "contract: density and column density are finite and non-negative", contract=str(e)[:300], model=case.get("model"))
+        return v_.result(decided=True, nontrivial=True, sample={"model": case.get("model")})
+
+
+def _run_case(case):
     import pyrex.earth_model as em
     v = V()
     rng = case_rng(case)
